@@ -366,6 +366,7 @@ def _commutes_rules(ctx, repo):
 
     _trace_distance_rules(ctx, repo)
     _phase_by_rules(ctx, repo)
+    _phased_xz_canonical(ctx, repo)
     ctx.decided.append('C08.i no statement discards the result of a value-semantics method (inverse / then / with_* / replace ...): `t.inverse()` without rebinding is a no-op')
     shared.discarded_value_rule(ctx, 'C08.i')
     ctx.decided.append('C08.j predicates and builders write the private fields of another object only when that object was created in the same function (EigenGate._equal_up_to_global_phase_ zeroes _global_shift on the result of _with_exponent, which therefore must never be self)')
@@ -455,6 +456,39 @@ def _trace_distance_rules(ctx, repo):
             bad = (al, float(got), want)
     ctx.ob('C08.f', 'cirq.protocols.trace_distance_bound.trace_distance_from_angle_list', bad is None,
            '' if bad is None else f'for eigen-phases {np.round(bad[0], 3).tolist()} the helper returns {bad[1]:.6f} < the exact maximum trace distance {bad[2]:.6f}', tm.rel, hf.lineno)
+    # ParallelGate: k copies of a one-qubit rotation with eigen-phases +-phi have eigen-phases (k - 2j) phi
+    pg = repo.cls('cirq.ops.parallel_gate.ParallelGate')
+    pfn = pg.methods.get('_trace_distance_bound_')
+    if pfn is None:
+        raise AnalysisError('ParallelGate._trace_distance_bound_ vanished')
+    worst = None
+    for phi in (0.05, 0.2, np.pi / 8, 0.5, np.pi / 5, 0.3 * np.pi, 0.35 * np.pi, np.pi / 2):
+        for k in range(1, 10):
+            sub_bound = float(np.sin(phi))
+
+            def call_hook(call, it, sub_bound=sub_bound):
+                s_ = ast.unparse(call.func)
+                if s_.endswith('is_parameterized'):
+                    return False
+                if s_.endswith('trace_distance_bound'):
+                    return sub_bound
+                return NotImplemented
+
+            def attr_hook(node, it):
+                if isinstance(node.value, ast.Name) and node.value.id == 'self':
+                    return {'_num_copies': k, 'num_copies': k, 'sub_gate': 'G', '_sub_gate': 'G'}.get(node.attr, NotImplemented)
+                return NotImplemented
+            it = fdx.NumInterp({'self': 'P'}, call_hook=call_hook, attr_hook=attr_hook)
+            try:
+                got = it.call(pfn)
+            except fdx.Unsupported as ex:
+                raise AnalysisError(f'ParallelGate._trace_distance_bound_ is outside the interpretable subset: {ex}')
+            want = _true_trace_distance([(k - 2 * j) * phi for j in range(k + 1)])
+            if got is not None and float(got) < want - 1e-9 and worst is None:
+                worst = (k, phi, float(got), want)
+    ctx.ob('C08.f', f'{pg.qual}._trace_distance_bound_', worst is None, '' if worst is None else
+           f'{worst[0]} parallel copies of a rotation by half-angle {worst[1]:.3f} (single bound {np.sin(worst[1]):.3f}) get the bound {worst[2]:.6f}, but the product reaches a trace distance of '
+           f'{worst[3]:.6f}: not an upper bound', pg.mod.rel, pfn.lineno)
     # controlled wrappers: the identity block contributes the eigen-phase 0, so a global phase of the sub-operation becomes a relative one
     probes_u = {
         'i*I': 1j * np.eye(2), 'X**0.01 * exp(i pi/4)': np.exp(1j * np.pi / 4) * (np.cos(0.005 * np.pi) * np.eye(2) - 1j * np.sin(0.005 * np.pi) * np.array([[0, 1], [1, 0]])),
@@ -563,3 +597,27 @@ def _phase_by_rules(ctx, repo):
                 ctx.ob('C08.h', f'{ci.qual}._phase_by_:e={e}:t={t}', ok,
                        '' if ok else f'phase_by({nm}**{e}, {t}) returns {g.kind if isinstance(g, GV) else g}(exponent={getattr(g, "exponent", None)}, phase_exponent={getattr(g, "phase_exponent", None)}), '
                        f'which is not Z**{2 * t} {nm}**{e} Z**{-2 * t} up to phase', ci.mod.rel, fn.lineno, construct=f'{ci.qual}._phase_by_')
+
+
+def _phased_xz_canonical(ctx, repo):
+    """C08.l - PhasedXZGate._canonical (the basis of its equality) keeps the matrix up to global phase."""
+    from . import c19
+    ctx.decided.append('C08.l PhasedXZGate._canonical, on which equality and hashing of the gate rest, returns a gate with the same matrix up to global phase (probe grid of x, z, a)')
+    ctx.rule('C08.l', 'canonical form is the same gate: interpreting PhasedXZGate._canonical on model gates, Z^z\' Z^a\' X^x\' Z^-a\' of the returned exponents equals Z^z Z^a X^x Z^-a up to '
+             'global phase for each probe triple - otherwise gates that compare equal would act differently', floor=60, style='FDX')
+    ci = repo.cls('cirq.ops.phased_x_z_gate.PhasedXZGate')
+    fn = repo.method(ci.qual, '_canonical')
+    import numpy as np
+    for x, z, a in c19.PXZ_PROBES:
+        g = c19._PXZ(x, z, a)
+        try:
+            out = c19.pxz_interp(repo, fn, g, [])
+        except (fdx.Unsupported, fdx.Raised) as ex:
+            raise AnalysisError(f'cannot interpret PhasedXZGate._canonical: {ex}')
+        if not isinstance(out, c19._PXZ):
+            raise AnalysisError('PhasedXZGate._canonical no longer returns a PhasedXZGate')
+        ov = abs(np.trace(g.matrix().conj().T @ out.matrix())) / 2
+        ok = abs(ov - 1) < 1e-9
+        ctx.ob('C08.l', f'{ci.qual}._canonical:x={x}:z={z}:a={a}', ok, '' if ok else
+               f'PhasedXZGate(x={x}, z={z}, a={a}) is canonicalised to (x={out._x_exponent:g}, z={out._z_exponent:g}, a={out._axis_phase_exponent:g}), a different rotation (overlap {ov:.4f})',
+               ci.mod.rel, fn.lineno)
